@@ -255,14 +255,14 @@ theorem MuxLeaf.decode_eq (m : MuxLeaf) (hok : m.ok) (fuel : Nat)
                    origin := posOf m.bytePos d.origin d.cursorByte } : DecState) = _
     rw [← hcb]
   -- what `fits` says
-  have hfit' : ((m.keyObj.pos d2.origin d2.cursorByte + m.keyObj.k ≤ d2.msg.length) ∧ (decStep m.keyObj d2).1 = IVal.int m.lo) ∧
+  have hfit' : (m.keyObj.fitsIn d2 ∧ (decStep m.keyObj d2).1 = IVal.int m.lo) ∧
       m.content.pair.fits (decStep m.keyObj d2).2 := by
     rw [hd2]; exact hfit
   obtain ⟨⟨hkfit, hkval⟩, hcfit⟩ := hfit'
   have hkey : decodeParam (f + 2) (.mk "" (some m.swBp) m.key.bitPos
       (.value (.simple (.std m.keyObj.bt m.key.enc m.key.hl m.key.bl none false) m.keyObj.bt .identical) none)) d2 true =
       .ok (.atom (.int m.lo), (decStep m.keyObj d2).2) := by
-    have := decodeParam_obj m.keyObj hk f d2 hkfit
+    have := decodeParam_obj m.keyObj hk f d2 hkfit.1 hkfit.2
     rw [hkval] at this
     exact this
   have hcont := Tree.decode_eq m.content (by simpa [MuxLeaf.content, Tree.okAll] using hkids) (f + 2)
